@@ -272,6 +272,17 @@ func main() {
 
 func doDump(p *Prog, what, rules string) {
 	switch what {
+	case "locks":
+		la := p.Locks()
+		for _, f := range p.Funcs {
+			if !strings.Contains(funcKey(f), rules) {
+				continue
+			}
+			fmt.Printf("%s internal=%v syncLit=%v paramCalled=%v entry=%v sites=%d\n", funcKey(f), la.internal[f], la.syncLit[f] != nil, la.paramCalled[f], la.entry[f], len(la.sites[f]))
+			for _, s := range la.sites[f] {
+				fmt.Printf("   site %s in %s: %v\n", p.instrPos(s), funcKey(s.Parent()), la.info[s.Parent()].before[s])
+			}
+		}
 	case "symbols":
 		b, _ := json.MarshalIndent(p.inventory(), "", " ")
 		fmt.Println(string(b))
@@ -323,6 +334,26 @@ func doDump(p *Prog, what, rules string) {
 		}
 		for _, t := range p.InterceptorTypes() {
 			fmt.Printf("interceptor %s\n", typeKey(t))
+		}
+	case "orphans":
+		// obligations no claimed property selects (debugging view: what the engines decide that nobody claims)
+		var rl []string
+		for _, e := range engines {
+			rl = append(rl, e.rules...)
+		}
+		all, _ := runEngines(p, rl)
+		for _, ob := range all {
+			sel := false
+			for _, pd := range props {
+				for _, sl := range pd.sels {
+					if sl.selects(ob) {
+						sel = true
+					}
+				}
+			}
+			if !sel && ob.Verdict != "trivial" {
+				fmt.Printf("%-10s %-95s %s\n", ob.Verdict, ob.Key, ob.Pos)
+			}
 		}
 	case "obls":
 		var rl []string
